@@ -401,6 +401,10 @@ func (m *Model) resume() (out []Exp, evs []ExpEv) {
 			case "written", "gate", "cancelsess":
 			case "closesrv":
 				m.SrvClosing = true
+			case "panic":
+				ev.Writ = x.written
+				evs = append(evs, ev)
+				return m.finish(out, evs, true, "statement function panicked", nil)
 			case "ret":
 				ev.Writ = x.written
 				evs = append(evs, ev)
